@@ -210,10 +210,14 @@ def insert_call(sq, qc, c, log):
     else: raise Unsupported('insert call ' + k)
 
 def update(sq, t):
-    e = sq.e
-    qc = Cell(e.call(UPD + 'new', [])); r = Ref(qc, True)
+    qc = Cell(sq.e.call(UPD + 'new', []))
+    for c in t['calls']: update_call(sq, qc, c)
+    return qc.v
+
+def update_call(sq, qc, c):
+    e = sq.e; r = Ref(qc, True)
     ty = 'query::update::UpdateStatement'
-    for c in t['calls']:
+    for c in [c]:
         k = c[0]
         if cond_call(sq, ty, r, c) or ordered_call(sq, ty, r, c): continue
         if k == 'table': e.call(UPD + 'table::<types::TableRef>', [r, tableref(sq, c[1])])
@@ -223,13 +227,16 @@ def update(sq, t):
         elif k.startswith('returning'): e.call(UPD + 'returning', [r, returning_clause(sq, c)])
         elif k == 'with_cte': e.call(UPD + 'with_cte::<query::with::WithClause>', [r, with_clause(sq, c[1])])
         else: raise Unsupported('update call ' + k)
-    return qc.v
 
 def delete(sq, t):
-    e = sq.e
-    qc = Cell(e.call(DEL + 'new', [])); r = Ref(qc, True)
+    qc = Cell(sq.e.call(DEL + 'new', []))
+    for c in t['calls']: delete_call(sq, qc, c)
+    return qc.v
+
+def delete_call(sq, qc, c):
+    e = sq.e; r = Ref(qc, True)
     ty = 'query::delete::DeleteStatement'
-    for c in t['calls']:
+    for c in [c]:
         k = c[0]
         if cond_call(sq, ty, r, c) or ordered_call(sq, ty, r, c): continue
         if k == 'from_table': e.call(DEL + 'from_table::<types::TableRef>', [r, tableref(sq, c[1])])
@@ -237,7 +244,6 @@ def delete(sq, t):
         elif k.startswith('returning'): e.call(DEL + 'returning', [r, returning_clause(sq, c)])
         elif k == 'with_cte': e.call(DEL + 'with_cte::<query::with::WithClause>', [r, with_clause(sq, c[1])])
         else: raise Unsupported('delete call ' + k)
-    return qc.v
 
 def with_clause(sq, t):
     e = sq.e
